@@ -664,6 +664,21 @@ pub fn genpoly_line(e: usize, v: usize) -> String {
 fn gen_c07(out: &mut Out, rng: &mut Rng, thorough: bool) {
     // the EC codewords as EMITTED into the interleaved sequence by `structure`, for arbitrary data buffers
     crate::unitops::gen_structure(out, rng, thorough);
+    // … and in built symbols: every (version, level) layout once (thorough: three payloads each)
+    {
+        let caps = caps();
+        for v in 0..40usize {
+            for e in 0..4usize {
+                if !thorough && (v + 2 * e) % 3 != 0 { continue; }
+                for _ in 0..(if thorough { 3 } else { 1 }) {
+                    let len = rng.range(caps[2][e][v] / 2, caps[2][e][v]);
+                    let inp = content(rng, 2, len);
+                    let o = Opts { ecl: Some(e), mode: Some(2), version: Some(v), mask: Some(rng.below(8)) };
+                    out.job(move || build_line(&inp, o));
+                }
+            }
+        }
+    }
     // degree map, all 160 pairs
     for e in 0..4 {
         for v in 0..40 {
